@@ -3,6 +3,8 @@ import PhysisModel.Proofs.Layer
 import PhysisModel.Proofs.Tera
 import PhysisModel.Proofs.TeraFloat
 import PhysisModel.Proofs.Pbd
+import PhysisModel.Proofs.HavokInt
+import PhysisModel.Proofs.HavokBits
 /-!
 # C16 — auxiliary asset decoders return the stored records
 Property theorems only; helper lemmas live in `Proofs/`.
@@ -185,5 +187,39 @@ example : Spec.Layer.encode ⟨0x3142474c, 0x3150474c, 261, [0x50,0x6c,0x61,0x6e
     [0x4c,0x47,0x42,0x31, 0x2d,0,0,0, 1,0,0,0, 0x4c,0x47,0x50,0x31, 0x18,0,0,0, 5,1,0,0, 0x10,0,0,0,
      0x10,0,0,0, 0,0,0,0, 0x50,0x6c,0x61,0x6e,0x4c,0x69,0x76,0x65, 0] := by decide
 example : Spec.Layer.WF ⟨0x3142474c, 0x3150474c, 261, [0x50,0x6c,0x61,0x6e,0x4c,0x69,0x76,0x65]⟩ := by decide
+
+/-! ## skeletons: Havok binary tag files (`src/havok/binary_tag_file_reader.rs`) -/
+
+/-- `read_packed_int` returns every `i32` other than `i32::MIN` that the format's packed encoding
+holds, written in any admissible number of bytes (`w` = the writer's minimum width, at most five
+bytes are ever produced), and stops exactly behind it. -/
+theorem c16_packed_int (w : Nat) (n : Int) (r : Bytes) (h : Spec.HavokTag.InRange n) :
+    Havok.readPackedInt (Spec.HavokTag.encodePackedIntW w n ++ r) = some (n, r) :=
+  Havok.readPackedInt_encode w n r h
+
+example : Spec.HavokTag.InRange (-8192) := by decide
+example : Spec.HavokTag.encodePackedInt (-8192) = [0x81, 0x80, 0x01] := by decide
+example : Spec.HavokTag.encodePackedIntW 5 300 = [0xD8, 0x84, 0x80, 0x80, 0x00] := by decide
+
+/-- `read_bit_field(count)` consumes `ceil(count / 8)` bytes (`count` below 2^32 - 7) and returns, for
+`i < count`, bit `i mod 8` of byte `i div 8`, least significant bit first. -/
+theorem c16_bitfield (count : Nat) (b : Bytes) (hc : count + 7 < 2 ^ 32) (hb : (count + 7) / 8 ≤ b.length) :
+    Havok.readBitField count b =
+      some (((b.take ((count + 7) / 8)).flatMap (Havok.lsb · 8)).take count, b.drop ((count + 7) / 8)) :=
+  Havok.readBitField_eq count b hc hb
+
+/-- the existence bits of `n` members take exactly `ceil(n / 8)` bytes and are read back; the reader
+stops exactly behind them (also when `n` is a multiple of 8, and for `n = 0`). -/
+theorem c16_bitfield_roundtrip (bits : List Bool) (r : Bytes) (h : bits.length + 7 < 2 ^ 32) :
+    (Spec.HavokTag.encodeBits bits).length = (bits.length + 7) / 8 ∧
+    Havok.readBitField bits.length (Spec.HavokTag.encodeBits bits ++ r) = some (bits, r) :=
+  ⟨Havok.encodeBits_length _ bits (Nat.le_refl _), Havok.readBitField_encode bits r h⟩
+
+example : Spec.HavokTag.encodeBits [true, false, false, true, false, false, false, true] = [0x89] := by
+  rw [Havok.encodeBits_cons]
+  simp only [List.drop_succ_cons, List.drop_zero, Havok.encodeBits_nil]
+  decide
+example : Havok.readBitField 8 [0x89, 0x55] = some ([true, false, false, true, false, false, false, true], [0x55]) := by
+  decide
 
 end Physis.C16
